@@ -108,3 +108,25 @@ gproof! { fn c14_arcborrow_debug_by_value() {
     assert!(ok == unsafe { vrt::IP_FMT_OK }, "F2 ArcBorrow Debug does not return the value's result");
     core::mem::forget(a);
 } }
+
+// ---- check mode (proof_for_contract) ----
+// @h props=C04 mode=check fuc=ArcBorrow::strong_count
+#[kani::proof_for_contract(ArcBorrow::<S9a8>::strong_count)]
+fn c04_chk_borrow_strong_count() {
+    vrt::ghost_reset();
+    let a = mk(S9a8::any(), any_count());
+    let b = a.borrow_arc();
+    let _ = ArcBorrow::strong_count(&b);
+    kani::cover!(true, "END");
+    core::mem::forget(a);
+}
+// @h props=C11 mode=check fuc=ArcBorrow::get
+#[kani::proof_for_contract(ArcBorrow::<S9a8>::get)]
+fn c11_chk_borrow_get() {
+    vrt::ghost_reset();
+    let a = mk(S9a8::any(), any_count());
+    let b = a.borrow_arc();
+    let _ = b.get();
+    kani::cover!(true, "END");
+    core::mem::forget(a);
+}
